@@ -213,10 +213,50 @@ def _strip_docstring(body: List[ast.stmt]) -> List[ast.stmt]:
     return body
 
 
+# one-yield generator functions of the package (`async def _aonce(x): yield x`): name -> (parameters, value);
+# filled by the rule that runs the normaliser (the normaliser itself sees one function at a time)
+ONE_YIELD: Dict[str, Tuple[List[str], ast.expr]] = {}
+
+
+def register_one_yield(functions) -> None:  # type: ignore[no-untyped-def]
+    ONE_YIELD.clear()
+    for fn in functions:
+        node = fn.node
+        body = _strip_docstring(node.body)
+        if len(body) == 1 and isinstance(body[0], ast.Expr) and isinstance(body[0].value, ast.Yield) and body[0].value.value is not None:
+            a = node.args
+            if a.vararg or a.kwarg or a.kwonlyargs or a.defaults:
+                continue
+            params = [x.arg for x in a.args if x.arg not in ("self", "cls")]
+            ONE_YIELD[_strip_suffix(fn.name)] = (params, body[0].value.value)
+
+
+class _Param(ast.NodeTransformer):
+    def __init__(self, m: Dict[str, ast.expr]) -> None:
+        self.m = m
+
+    def visit_Name(self, node: ast.Name) -> ast.AST:
+        if node.id in self.m and isinstance(node.ctx, ast.Load):
+            return copy.deepcopy(self.m[node.id])
+        return node
+
+
 def _inline_one_yield_generators(body: List[ast.stmt], res: NormResult) -> List[ast.stmt]:
     """def g(): yield X ... v = g()  ->  v = [X]."""
     gens: Dict[str, ast.expr] = {}
     out: List[ast.stmt] = []
+    if ONE_YIELD:
+        class Inl0(ast.NodeTransformer):
+            def visit_Call(self, node: ast.Call) -> ast.AST:
+                self.generic_visit(node)
+                name = node.func.id if isinstance(node.func, ast.Name) else (node.func.attr if isinstance(node.func, ast.Attribute) else None)
+                if name in ONE_YIELD and not node.keywords and len(node.args) == len(ONE_YIELD[name][0]):
+                    params, value = ONE_YIELD[name]
+                    res.idioms.append("one-yield generator function == one-element list")
+                    return ast.List(elts=[_Param(dict(zip(params, node.args))).visit(copy.deepcopy(value))], ctx=ast.Load())
+                return node
+
+        body = [Inl0().visit(s) for s in body]
     for s in body:
         if isinstance(s, ast.FunctionDef) and not s.args.args and len(s.body) == 1:
             b = s.body[0]
